@@ -409,10 +409,11 @@ def tr_cdm_guard(repo: Path) -> str:
     tree = parse(repo, "pyxel/models/charge_transfer/cdm.py")
     fn = find_func(tree, "cdm")
     body = body_no_doc(fn)
-    sel = [st for st in body if isinstance(st, ast.If) and isinstance(st.test, ast.Compare)
-           and ast.unparse(st.test.left) == "full_well_capacity"]
+    sel = [st for st in body if isinstance(st, (ast.If, ast.Assign, ast.AnnAssign, ast.Try))
+           and any(isinstance(n, ast.Name) and n.id == "full_well_capacity" for n in ast.walk(st))
+           and not any(isinstance(n, ast.Call) and ast.unparse(n.func).startswith("run_cdm") for n in ast.walk(st))]
     if len(sel) != 1:
-        fail(fn, "cdm: expected one `if full_well_capacity is [not] None` selection")
+        fail(fn, "cdm: expected one statement selecting the capacity from `full_well_capacity` / the characteristics")
     var, sel_t = select_stmt(sel[0], "full_well_capacity", "full_well_capacity")
     names = {"max_electron_volume": "vg", "beta": "beta", var: "fwc", "transfer_period": "t"}
     guards, seen = [], set()
